@@ -699,7 +699,9 @@ def o_C15(h):
     for a, c in stuck_agents(h):
         if c.name in ("poll", "ssend"):
             own = sum(1 for st in h.steps if st.agent == a and st.no >= c.start)
-            if own > 600 and h.end.get("outcome") == "limit":
+            # the call spins a configured number of times (each try is a whole try_send/try_recv) before it parks
+            spins = (h.scn.sf + h.scn.sy) if h.scn is not None else 0
+            if own > 600 + 30 * spins and h.end.get("outcome") == "limit":
                 out.append(V("C15", "%s by agent %d did not return after %d of its own steps" % (c.name, a, own), h.steps[-1].no, h))
     return out
 
